@@ -1,0 +1,59 @@
+//go:build verif
+
+// Contracts for package mp (map paths and the [next]/[rand] iterator), checked by /verif/govc. Comment-only: no code.
+package mp
+
+// The iterator is shared by every instance that shoots the scenario: its counter map and its random source may only be
+// touched with the iterator's mutex held.
+//@ guarded_by NextIterator.gs mx
+//@ guarded_by NextIterator.rnd mx
+
+//@ iface Iterator.Next
+//@ ensures result >= 0
+//@ iface Iterator.Rand
+//@ requires length > 0
+//@ ensures 0 <= result && result < length
+
+//@ func NewNextIterator
+//@ props C11 C15
+//@ ensures fresh(result) && result.gs != nil && result.rnd != nil && held(result.mx) == 0
+
+// [next]: each path has its own counter; successive calls return 0, 1, 2, ... whichever instance asks.
+//@ func (n *NextIterator) Next
+//@ props C11 C15 C13
+//@ nilsafe
+//@ requires held(n.mx) == 0 && n.gs != nil && forall_t(q, string, imp(has(n.gs, q), n.gs[q] != nil))
+//@ ensures [lock-released] held(n.mx) == 0
+//@ ensures [first-use-of-a-path-is-row-0] imp(!old(has(n.gs, segment)), result == 0 && has(n.gs, segment) && *n.gs[segment] == 0)
+//@ ensures [later-uses-count-up] imp(old(has(n.gs, segment)), result == old(*n.gs[segment]) + 1 && *n.gs[segment] == result)
+//@ ensures [other-paths-untouched] forall_t(q, string, imp(q != segment && old(has(n.gs, q)), has(n.gs, q) && n.gs[q] == old(n.gs[q])))
+
+//@ func (n *NextIterator) Rand
+//@ props C11 C13
+//@ nilsafe
+//@ requires held(n.mx) == 0 && n.rnd != nil && length > 0
+//@ ensures [lock-released] held(n.mx) == 0
+//@ ensures [a-valid-index] 0 <= result && result < length
+
+// Index into a data source of `length` rows: a number (wrapping around), next, rand or last. No fault for any index text
+// and any length, an empty source included.
+//@ func calcIndex
+//@ props C13 C15
+//@ nilsafe
+//@ requires iter != nil
+//@ ensures [a-valid-index] imp(result1 == nil, 0 <= result0 && result0 < length)
+//@ ensures [numbers-wrap-around] imp(result1 == nil && indexStr != "next" && indexStr != "rand" && indexStr != "last" && result_of(strconv.Atoi, 0) >= 0, result0 == result_of(strconv.Atoi, 0) % length)
+//@ ensures [last-row] imp(result1 == nil && indexStr == "last", result0 == length - 1)
+//@ ensures [next-row-round-robin] imp(result1 == nil && indexStr == "next", result0 == result_of(iter.Next, 0) % length)
+//@ at call iter.Next assert [counter-of-this-path] arg(segment) == segment0
+
+//@ func extractFromSlice
+//@ props C13 C15
+//@ nilsafe
+//@ requires iter != nil
+
+//@ func GetMapValue
+//@ props C13 C15
+//@ nilsafe
+//@ requires iter != nil
+//@ at call extractFromSlice assert [next-counter-is-per-path] arg(curSegment) == result_of(curSegment.String, 0) && arg(iter) == iter0
